@@ -175,6 +175,29 @@ pub fn gen_train(r: &mut Rng, size: usize, default_consist: bool) -> TrainSpec {
     TrainSpec { rvs, n_cars, consist, tags }
 }
 
+/// Gate the speed sets of some links of the route by train-parameter conditions that hold EXACTLY at the
+/// boundary for this train (axle count >= / <= / == its own axle count; > and < one off): on the unchanged
+/// code every set keeps applying, so nothing else changes; a slip in the comparison drops or keeps a set.
+/// Deterministic in the route (no random draws).
+pub fn gate_route(route: &mut Route, t: &TrainSpec) {
+    use altrios_core::track::{CompareType, LimitType, SpeedParam};
+    let cfg = match TrainConfig::new(t.rvs.clone(), t.n_cars.clone(), TrainType::Freight, None, None, None) { Ok(c) => c, Err(_) => return };
+    let tp = match cfg.make_train_params() { Ok(p) => p, Err(_) => return };
+    let ax = tp.axle_count as f64;
+    let nl = route.network.len();
+    let mut n = 0;
+    for (i, l) in route.network.iter_mut().enumerate().skip(1) {
+        if (i + nl) % 3 != 0 { continue; }
+        if let Some(ss) = &mut l.speed_set {
+            let (ct, v) = match (i / 3) % 5 { 0 => (CompareType::TpGreaterThanEqualRp, ax), 1 => (CompareType::TpLessThanEqualRp, ax), 2 => (CompareType::TpEqualRp, ax),
+                3 => (CompareType::TpGreaterThanRp, ax - 1.0), _ => (CompareType::TpLessThanRp, ax + 1.0) };
+            ss.speed_params.push(SpeedParam { limit_val: v, limit_type: LimitType::AxleCount, compare_type: ct });
+            n += 1;
+        }
+    }
+    route.tags.push(format!("route:gated_speed_sets:{}", if n > 0 { "yes" } else { "no" }));
+}
+
 pub fn builder(t: &TrainSpec, init: Option<InitTrainState>, with_od: bool) -> TrainSimBuilder {
     let cfg = TrainConfig::new(t.rvs.clone(), t.n_cars.clone(), TrainType::Freight, None, None, None).expect("train config");
     TrainSimBuilder::new("t".into(), cfg, t.consist.clone(),
@@ -443,7 +466,8 @@ fn ss_run_inner(r: &mut Rng, id: String, o: &SsOpts, trunc: Option<bool>) -> Run
     let train = gen_train(r, o.size, o.default_consist);
     let tl = train.length();
     let vmax = train.speed_max().min(30.0);
-    let route = gen_route(r, o.profile, tl + 500.0, vmax);
+    let mut route = gen_route(r, o.profile, tl + 500.0, vmax);
+    gate_route(&mut route, &train);
     let total = route.total_len();
     let (t0, off0, v0) = match o.init { 0 => (0.0, tl, 0.0), _ => (r.range(0.0, 500.0).round(), (tl + r.range(0.0, (total - tl) * 0.3)).min(total - 100.0).max(tl), if o.profile == 1 { vmax * 0.9 } else { r.range(0.0, vmax * 0.6) }) };
     let max_dist = if o.overrun { total } else { (total - off0 - 50.0).max(0.0) };
@@ -520,7 +544,8 @@ pub struct SlOpts { pub profile: usize, pub size: usize, pub default_consist: bo
 pub fn sl_make(r: &mut Rng, o: &SlOpts) -> (TrainSpec, Route, Result<SpeedLimitTrainSim, String>) {
     let train = gen_train(r, o.size, o.default_consist);
     let tl = train.length();
-    let route = gen_route_ext(r, o.profile, tl + 1500.0, train.speed_max().min(30.0), if o.clean_start { tl + 450.0 } else { 0.0 }, o.max_total);
+    let mut route = gen_route_ext(r, o.profile, tl + 1500.0, train.speed_max().min(30.0), if o.clean_start { tl + 450.0 } else { 0.0 }, o.max_total);
+    gate_route(&mut route, &train);
     let b = builder(&train, None, true);
     let made = catch(std::panic::AssertUnwindSafe(|| b.make_speed_limit_train_sim(&location_map(), Some(1), None, None)));
     let sim = match made {
